@@ -179,6 +179,10 @@ def build_text(case):
             outs = ["N%d" % j for (a, j) in edges if a == i]
             if dupe and outs:
                 outs = outs + [outs[0]]          # the same result referenced twice by one command
+            if case["order"] % 4 == 2 and not case.get("noout"):
+                # commands that produce texts and take them where they declare paths
+                lines.append("N%d = PathChain(%s)" % (i, ", ".join((["P = %s" % outs[0]] if outs else []) + (["L = [%s]" % ", ".join(outs[1:])] if len(outs) > 1 else []))))
+                continue
             if not outs:
                 lines.append("N%d = Src(V = %d)" % (i, i))
                 continue
@@ -224,6 +228,9 @@ def build_text(case):
             else:
                 lines.append("N%d = %s(InFieldNames = [%s])" % (i, rng.choice(["Sum", "Maximum", "Mean"]), ", ".join(outs)))
         libs = arr.NC_LIBS if case["order"] % 9 == 4 else arr.CSV_LIBS
+    if case["lib"] == "eems" and case["order"] % 9 != 4 and case["order"] % 8 in (2, 6):
+        # a conversion beside the ring whose optional arguments are written out empty / at their defaults
+        lines.append('FzFar = CvtToFuzzy(InFieldName = Leaf, Direction = "")' if case["order"] % 8 == 2 else 'FzFar = CvtToFuzzy(InFieldName = Leaf, Direction = LowToHigh, Metadata = [])')
     if case["lib"] == "eems" and case["order"] % 9 != 4 and case["order"] % 4 == 1 and case["order"] % 5 != 1:
         # a writer in a separate, acyclic part of the model whose output folder does not exist yet
         lines.append('OutFar = EEMSWrite(OutFileName = "results/not_there_yet/out.csv", OutFieldNames = [Leaf])')
